@@ -191,7 +191,17 @@ class World:
                                           for k, v in sorted(self.mark_types.items())}}
             if "nosv" in self.models:
                 extra["nosv"] = {"can_breakdown": True, "lib_version": "2.4.0"}
-            t.stream.meta = tf.base_meta(l.name, t.proc.pid, t.tid, app_id=t.proc.appid, require=req,
+            treq = req
+            if getattr(self, "require_split", None) and len(self.threads) >= 2:
+                # a model is enabled when SOME stream requires it: every model keeps >= 1 requiring thread, chosen at random
+                from .prng import Rng as _Rng
+                treq = {}
+                for m in sorted(req):
+                    rr = _Rng(self.require_split).derive(m)
+                    holders = set(rr.sample(range(len(self.threads)), rr.randint(1, max(1, len(self.threads) - 1))))
+                    if self.threads.index(t) in holders:
+                        treq[m] = req[m]
+            t.stream.meta = tf.base_meta(l.name, t.proc.pid, t.tid, app_id=t.proc.appid, require=treq,
                                          cpus=[(c.index, c.phyid) for c in l.cpus],
                                          rank=t.proc.rank, nranks=t.proc.nranks, extra=extra)
 
